@@ -227,3 +227,79 @@ Definition get_cfgs (lines flags : list str) : option cfgs :=
   | None => None
   | Some extra => Some (dict_of (map split_cfg (lines ++ extra)))
   end.
+
+(* ------------------------------------------------------------------ *)
+(* sequences of _get_cfgs calls on ONE interpreter (interpreter.py:701-711).  Two caches
+   are involved: RustCompiler.get_cfgs() is lru_cached and hands out the SAME list object
+   every time ([g_shared]); _get_cfgs itself is lru_cached per (machine, subproject)
+   ([g_cache]; a call that raises is not cached).  _get_cfgs works on a .copy() of the
+   shared list, so appending the --cfg flags does not touch it. *)
+Record gstate := mkG { g_shared : list str; g_cache : list (str * cfgs) }.
+
+Fixpoint cache_find (k : str) (c : list (str * cfgs)) : option cfgs :=
+  match c with
+  | [] => None
+  | (k', d) :: r => if str_eqb k k' then Some d else cache_find k r
+  end.
+
+(* one call _get_cfgs(machine, subproject) with that subproject's rust_args *)
+Definition gc_call (st : gstate) (key : str) (flags : list str) : option cfgs * gstate :=
+  match cache_find key (g_cache st) with
+  | Some d => (Some d, st)
+  | None =>
+      let cfgs_copy := g_shared st in                       (* rustc.get_cfgs().copy() *)
+      match get_cfgs cfgs_copy flags with
+      | Some d => (Some d, mkG (g_shared st) ((key, d) :: g_cache st))
+      | None => (None, st)
+      end
+  end.
+
+(* a session: each call evaluates one condition against the configuration it obtained *)
+Fixpoint gc_session (st : gstate) (calls : list (str * list str * str)) : list (option result) :=
+  match calls with
+  | [] => []
+  | (key, flags, cond) :: r =>
+      let '(d, st') := gc_call st key flags in
+      (match d with Some d' => Some (eval_cfg cond d') | None => None end) :: gc_session st' r
+  end.
+
+(* ------------------------------------------------------------------ *)
+(* the consumer of eval_cfg: Interpreter._prepare_package (interpreter.py:572-601) merges
+   the target-specific dependency tables whose condition holds for the machine being
+   prepared INTO pkg.manifest.dependencies — one dict per package, shared by the host
+   and the build machine — and then requires every non-optional dependency of that
+   dict.  Names only; dict.update keeps the position of a key that is already there. *)
+Fixpoint dep_merge (acc : list str) (names : list str) : list str :=
+  match names with
+  | [] => acc
+  | n :: r => dep_merge (if str_mem n acc then acc else acc ++ [n]) r
+  end.
+Record pstate := mkP { p_deps : list str; p_done : list bool }.    (* machines prepared: true = host *)
+Definition bool_mem (b : bool) (l : list bool) : bool := existsb (Bool.eqb b) l.
+
+(* targets in manifest order; the result is the list handed to _add_dependency, or None
+   when eval_cfg raises (the machine is then marked prepared with a partial merge) *)
+Fixpoint merge_targets (targets : list (str * list str)) (d : cfgs) (deps : list str) : list str * bool :=
+  match targets with
+  | [] => (deps, true)
+  | (cond, names) :: r =>
+      match eval_cfg cond d with
+      | Ok true => merge_targets r d (dep_merge deps names)
+      | Ok false => merge_targets r d deps
+      | _ => (deps, false)
+      end
+  end.
+Definition prepare_package (targets : list (str * list str)) (cfg_of : bool -> cfgs)
+           (st : pstate) (host : bool) : option (list str) * pstate :=
+  if bool_mem host (p_done st) then (Some [], st)
+  else
+    let '(deps, ok) := merge_targets targets (cfg_of host) (p_deps st) in
+    let st' := mkP deps (host :: p_done st) in
+    (if ok then Some deps else None, st').
+Fixpoint prepare_session (targets : list (str * list str)) (cfg_of : bool -> cfgs)
+         (st : pstate) (calls : list bool) : list (option (list str)) :=
+  match calls with
+  | [] => []
+  | h :: r => let '(o, st') := prepare_package targets cfg_of st h in
+              o :: prepare_session targets cfg_of st' r
+  end.
